@@ -235,6 +235,12 @@ func runC08(c *Ctx) {
 	}
 
 	// ---- R5 -------------------------------------------------------------------------------------
+	c.Rule("R6", "accessor agreement for the report/acknowledgement state (consumer outstanding-downtime flags, provider slash acks)", 6)
+	checkAccessorAgreement(c, "ck", "OutstandingDowntimeKey")
+	checkAccessorAgreement(c, "pk", "SlashAcksKey")
+	checkSetterValues(c, "ck", []string{"OutstandingDowntime"})
+	checkSetterValues(c, "pk", []string{"SlashAcks"})
+
 	c.Rule("R5", "provider OnRecvPacket: an error from OnRecvSlashPacket yields an error acknowledgement; a result acknowledgement carries OnRecvSlashPacket's result", 3)
 	if f := c.Fn("provider.AppModule.OnRecvPacket"); f != nil {
 		on := c.one(f, false, "pk.Keeper.OnRecvSlashPacket")
